@@ -139,6 +139,10 @@ def cases(ctx):
         i += 1
         if ctx.mine(i):
             yield {'kind': 'file', 'base': k}
+    for k in range(8 if ctx.tier == 'quick' else 64):
+        i += 1
+        if ctx.mine(i):
+            yield {'kind': 'process', 'base': k}
 
 
 def lib_error(ctx, which):
@@ -235,6 +239,8 @@ def judge(ctx, case):
         return
     if kind == 'file':
         return judge_file(ctx, case)
+    if kind == 'process':
+        return judge_process(ctx, case)
     if kind == 'onefile':
         fdata, enc, blocked = unhx(case['data']), case['enc'], case['blocked']
         for which in ('VbsReader', 'IpmReader'):
@@ -334,6 +340,55 @@ def judge_file(ctx, case):
                     'file_len': len(data), 'file_mutants': len(mutants)})
 
 
+def judge_process(ctx, case):
+    """The real command-line entry points in their own interpreter: exit status and stderr must show no traceback."""
+    import subprocess
+    import sys
+    from .. import env
+    k = case['base']
+    rng = ctx.rng_global('proc', k)
+    enc = ('latin_1', 'cp500')[k % 2]
+    blocked = (k // 2) % 2 == 1
+    kk = 8 * (k + 3) + (0 if enc == 'latin_1' else 2)
+    while kk % 5 == 4:
+        kk += 8
+    cid, e2, hexbm, wire = base(ctx, kk)
+    cfg = msgwork.cfg_of('packaged')
+    L = mutate.layout(wire, cfg, enc, False)
+    muts = list(mutate.length_rewrites(wire, L, enc))
+    how, bad = muts[rng.randrange(len(muts))] if k % 4 != 3 else ('unmutated', wire)
+    stream = refb.vbs([wire, bad, wire])
+    data = refb.block(stream) if blocked else stream
+    if not ctx.tmpdir:
+        ctx.tmpdir = tempfile.mkdtemp(prefix='vmon-c07-')
+    path = os.path.join(ctx.tmpdir, 'p%d.ipm' % k)
+    with open(path, 'wb') as f:
+        f.write(data)
+    e = dict(os.environ, PYTHONPATH=env.REPO, PYTHONDONTWRITEBYTECODE='1', PYTHONWARNINGS='ignore')
+    e.pop('CARDUTIL_CONFIG', None)
+    runs = [
+        ('mci_ipm_to_csv', ['-c', 'import sys; from cardutil.cli import mci_ipm_to_csv as t; sys.exit(t.cli_entry() or 0)', path,
+                            '-o', path + '.csv', '--in-encoding', enc, '--out-encoding', 'utf8'] + ([] if blocked else ['--no1014blocking'])),
+        ('mideu extract', ['-c', 'import sys; from cardutil.cli import mideu as t; sys.exit(t.cli_entry() or 0)', 'extract', path,
+                           '--csvoutputfile', path + '.2.csv', '-s', 'ascii' if enc == 'latin_1' else 'ebcdic'] + ([] if blocked else ['--no1014blocking'])),
+    ]
+    ctx.case_done(['process', k])
+    for name, args in runs:
+        try:
+            p = subprocess.run([env.PYTHON, '-B'] + args, capture_output=True, text=True, env=e, timeout=120, cwd=ctx.tmpdir)
+        except subprocess.TimeoutExpired:
+            ctx.violation('process:%s:did_not_terminate_in_120s' % name, {'case': case, 'how': how})
+            continue
+        ctx.count('command-line processes run: ' + name)
+        ctx.count('command-line exit status %d: %s' % (p.returncode, name))
+        if 'Traceback (most recent call last)' in p.stderr:
+            last = p.stderr.strip().splitlines()[-1] if p.stderr.strip() else ''
+            ctx.violation('process:%s:traceback:%s' % (name, last.split(':')[0][:40]),
+                          {'case': case, 'how': how, 'stderr_tail': p.stderr[-400:], 'exit': p.returncode})
+        elif how != 'unmutated' and p.returncode not in (0, 1, 255) :
+            ctx.violation('process:%s:unexpected_exit_status' % name, {'case': case, 'exit': p.returncode, 'stderr_tail': p.stderr[-300:]})
+
+
 def run_tools(ctx, fdata, enc, blocked, how):
     if not ctx.tmpdir:
         ctx.tmpdir = tempfile.mkdtemp(prefix='vmon-c07-')
@@ -404,6 +459,8 @@ def require(m):
             reasons.append('never observed: ' + need)
     if not c.get('tool runs: mci_ipm_to_csv') or not c.get('tool runs: mideu extract'):
         reasons.append('tools never run')
+    if not c.get('command-line processes run: mci_ipm_to_csv') or not c.get('command-line processes run: mideu extract'):
+        reasons.append('command-line processes never run')
     if not c.get('IpmReader file iterations'):
         reasons.append('readers never run on mutated files')
     return reasons
